@@ -758,7 +758,7 @@ Lemma maybe_rehash_ok c t m : TInv c t -> Abs c (rows t) m ->
     (stale t <= Nat.max 16 (length (rows t) / 2) -> t' = t) /\
     (Nat.max 16 (length (rows t) / 2) < stale t -> gen t' = S (gen t) /\ stale t' = 0).
 Proof.
-  intros HT HA. unfold maybe_rehash.
+  intros HT HA. unfold maybe_rehash, TableFns.maybe_rehash_skip.
   destruct (Nat.leb_spec (stale t) (Nat.max 16 (length (rows t) / 2))) as [Hle|Hgt].
   - exists t. split; [reflexivity|]. split; [exact HT|]. split; [exact HA|].
     split; [reflexivity|]. split; [reflexivity|]. split; [reflexivity|]. intros; lia.
@@ -872,7 +872,7 @@ Proof.
 Qed.
 
 (* ------------------------------------------------------------------------------------------ *)
-(** * [fast_subset] on the sort column is exact *)
+(** * [fast_subset_spec] on the sort column is exact *)
 
 Definition cut_lt sc rs v c := forall i r, live_at rs i = Some r -> (i < c <-> col r sc < v).
 Definition cut_le sc rs v c := forall i r, live_at rs i = Some r -> (i < c <-> col r sc <= v).
@@ -931,12 +931,12 @@ Proof.
 Qed.
 
 Theorem fast_subset_exact c t sc cn lo hi :
-  TInv c t -> sortc c = Some sc -> fast_subset c t cn = Some (lo, hi) ->
+  TInv c t -> sortc c = Some sc -> fast_subset_spec c t cn = Some (lo, hi) ->
   forall i r, live_at (rows t) i = Some r -> (lo <= i < hi <-> eval_c cn r = true).
 Proof.
   intros (_ & HS & _) Es Hf i r Hl. specialize (HS sc Es).
   pose proof (live_at_lt _ _ _ Hl) as Hlt.
-  unfold fast_subset in Hf. rewrite Es in Hf.
+  unfold fast_subset_spec in Hf. rewrite Es in Hf.
   destruct cn as [l r'|cl v|cl v|cl v|cl v|cl v]; try discriminate;
     (destruct (Nat.eqb_spec cl sc) as [Ecl|]; [subst cl|discriminate]);
     pose proof (bsearch_cut sc (rows t) v (offs t) [] HS (fun x (H : In x []) => match H with end)) as Hb;
@@ -946,9 +946,9 @@ Proof.
     rewrite ?Nat.eqb_eq, ?Nat.ltb_lt, ?Nat.leb_le; lia.
 Qed.
 
-(** so scanning the dense range returned by [fast_subset] = scanning under the constraint *)
+(** so scanning the dense range returned by [fast_subset_spec] = scanning under the constraint *)
 Corollary fast_subset_scan c t sc cn lo hi :
-  TInv c t -> sortc c = Some sc -> fast_subset c t cn = Some (lo, hi) ->
+  TInv c t -> sortc c = Some sc -> fast_subset_spec c t cn = Some (lo, hi) ->
   scan_range t lo hi = scan_cs t [cn].
 Proof.
   intros HT Es Hf. unfold scan_range, scan_cs. apply filter_ext_in. intros (i, r) Hin.
@@ -959,12 +959,12 @@ Proof.
     assert (false = true) by (apply Hex; lia). discriminate.
 Qed.
 
-(** constraints that are not on the sort column are never answered by [fast_subset] *)
-Lemma fast_subset_only_sort c t cn lo hi : fast_subset c t cn = Some (lo, hi) ->
+(** constraints that are not on the sort column are never answered by [fast_subset_spec] *)
+Lemma fast_subset_only_sort c t cn lo hi : fast_subset_spec c t cn = Some (lo, hi) ->
   exists sc, sortc c = Some sc /\
     match cn with CEq _ _ => False | CEqC cl _ | CLt cl _ | CGt cl _ | CLe cl _ | CGe cl _ => cl = sc end.
 Proof.
-  unfold fast_subset. destruct (sortc c) as [sc|]; [|discriminate]. intros H. exists sc. split; auto.
+  unfold fast_subset_spec. destruct (sortc c) as [sc|]; [|discriminate]. intros H. exists sc. split; auto.
   destruct cn; try discriminate; destruct (Nat.eqb_spec c0 sc); auto; discriminate.
 Qed.
 
@@ -1017,7 +1017,7 @@ Qed.
 
 Theorem table_fast_subset_exact c mf ops t sc cn lo hi :
   mf_ok c mf -> run c mf empty ops = Ok t ->
-  sortc c = Some sc -> fast_subset c t cn = Some (lo, hi) ->
+  sortc c = Some sc -> fast_subset_spec c t cn = Some (lo, hi) ->
   (forall i r, In (i, r) (scan_all t) -> (lo <= i < hi <-> eval_c cn r = true)) /\
   scan_range t lo hi = scan_cs t [cn].
 Proof.
@@ -1068,7 +1068,7 @@ Lemma merge_rehash_threshold c mf t t' :
     (Nat.max 16 (length (rows t2) / 2) < stale t2 -> rehash c t2 = Ok t').
 Proof.
   unfold merge. destruct (do_insert c mf (do_delete c t)) as [t2| |]; try discriminate. cbn [bind].
-  intros H. exists t2. split; auto. unfold maybe_rehash in H.
+  intros H. exists t2. split; auto. unfold maybe_rehash, TableFns.maybe_rehash_skip in H.
   set (m := Nat.max 16 (length (rows t2) / 2)) in *.
   destruct (Nat.leb_spec (stale t2) m) as [Hle|Hgt].
   - inversion H; subst t'. split; intros; [reflexivity|lia].
